@@ -1,5 +1,5 @@
 """C05  Reported statistics are the exact order statistics of the samples."""
-from lib.facts import norm, direct_place, const_int, place_fields, origins
+from lib.facts import norm, direct_place, const_int, place_fields, origins, nophi
 from lib import tables
 
 EXPLANATION = (
